@@ -77,6 +77,53 @@ Definition sampler_logpdf (m : nat) (L1 : Rmat) (Ax b : Rvec) (alpha beta : R) (
 
 End Densities.
 
+
+(* ------------------------------------------------------------------------------------------------- *)
+(* ConjugateApprox (_LMRFGammaPair.sample / legacy ConjugateApprox.step) and the LMRF density          *)
+(* ------------------------------------------------------------------------------------------------- *)
+
+Definition norm1 (v : Rvec) : R := fold_right (fun a acc => Rabs a + acc) 0 v.
+Definition Rsum (v : Rvec) : R := fold_right Rplus 0 v.
+
+(* LMRF.logpdf: len(Dx)*(-(log 2 + log scale)) - ||Dx||_1/scale; written for an arbitrary number of factors N and
+   an arbitrary penalty S so that the true density (N = len(Dx), S = ||Dx||_1) and the density the sampler is exact
+   for (N = len(x), S = sum_i phi_delta((Dx)_i)) are instances of ONE formula *)
+Definition lmrf_like_logpdf (N : nat) (S : R) (scale : R) : R := INR N * (- (ln 2 + ln scale)) - S / scale.
+Definition lmrf_logpdf (Dx : Rvec) (scale : R) : R := lmrf_like_logpdf (length Dx) (norm1 Dx) scale.
+Definition lik_lmrf (scale_fun : R -> R) (D : Rmat) (x : Rvec) (s : R) : R := lmrf_logpdf (Rmatvec D x) (scale_fun s).
+
+(* (W^(1/2) D x)_i^2 with W = diag(1/sqrt((Dx)^2 + delta)):  t^2 / sqrt(t^2 + delta) -- a smoothing of |t| *)
+Definition phi_delta (delta t : R) : R := t * t * (1 / sqrt (t * t + delta)).
+Definition approx_penalty (delta : R) (Dx : Rvec) : R := Rsum (map (phi_delta delta) Dx).
+(* Gamma(shape = d + alpha, rate = ||Lx||^2 + beta), d = len(x) *)
+Definition approx_shape_R (d : nat) (alpha : R) : R := INR d + alpha.
+Definition approx_rate_R (delta : R) (D : Rmat) (x : Rvec) (beta : R) : R := approx_penalty delta (Rmatvec D x) + beta.
+Definition approx_delta : R := 1 / 100000.
+
+
+(* ------------------------------------------------------------------------------------------------- *)
+(* vector and diagonal-matrix branches of get_sqrtprec_from_cov / get_sqrtprec_from_prec               *)
+(* ------------------------------------------------------------------------------------------------- *)
+
+(* np.diag(v) *)
+Definition Rdiagmat (v : Rvec) : Rmat :=
+  map (fun i => Rvscale (nth i v 0) (unit_vec 0 1 (length v) i)) (seq 0 (length v)).
+(* cov is a vector: logdet = sum(log(cov)), rank = dim, sqrtprec = diag(sqrt(1/cov)) *)
+Definition from_cov_vector (cov : Rvec) : nat * R * Rmat :=
+  (length cov, Rsum (map ln cov), Rdiagmat (map (fun c => sqrt (1 / c)) cov)).
+(* prec is a vector: logdet = sum(-log(prec)), rank = dim, sqrtprec = diag(sqrt(prec)) *)
+Definition from_prec_vector (prec : Rvec) : nat * R * Rmat :=
+  (length prec, Rsum (map (fun p => - ln p) prec), Rdiagmat (map sqrt prec)).
+(* cov is a diagonal matrix: var = cov.diagonal(), then as for a vector *)
+Definition diag_of (C : Rmat) : Rvec := map (fun i => nth i (nth i C []) 0) (seq 0 (length C)).
+
+Definition lik_gauss_covvec (cov_fun : R -> Rvec) (Ax b : Rvec) (s : R) : R :=
+  gaussian_of (from_cov_vector (cov_fun s)) Ax b.
+Definition lik_gauss_precvec (prec_fun : R -> Rvec) (Ax b : Rvec) (s : R) : R :=
+  gaussian_of (from_prec_vector (prec_fun s)) Ax b.
+Definition lik_gauss_covdiag (cov_fun : R -> Rmat) (Ax b : Rvec) (s : R) : R :=
+  gaussian_of (from_cov_vector (diag_of (cov_fun s))) Ax b.
+
 (* "f is proportional to g as densities on s > 0": the log-ratio does not depend on s *)
 Definition proportional_on_pos (logf logg : R -> R) : Prop :=
   forall s s', 0 < s -> 0 < s' -> logf s - logg s = logf s' - logg s'.
